@@ -5,6 +5,7 @@ import (
 	"encoding/json"
 	"fmt"
 	"strings"
+	"verif/mapseam"
 
 	mail "github.com/wneessen/go-mail"
 
@@ -19,7 +20,14 @@ type c10Case struct {
 	Spec     mb.Msg `json:"spec"`
 	FromName string `json:"from_name"`
 	ToName   string `json:"to_name"`
+	// Rcpt: recipient lists of different lengths: 1 = three more To addresses and one Cc, 2 = one more To and three Cc,
+	// 3 = three of each; KS: map-iteration start while the rendering is parsed (the parser walks the address headers of a map)
+	Rcpt int `json:"rcpt,omitempty"`
+	KS   int `json:"ks,omitempty"`
 }
+
+var c10Extra = []string{"Zoë Ångström <zoe@rcp.example>", "Plain Name <plain@rcp.example>", "third@rcp.example", "\"Last, First\" <lf@rcp.example>"}
+var c10ExtraNA = [][2]string{{"Zoë Ångström", "zoe@rcp.example"}, {"Plain Name", "plain@rcp.example"}, {"", "third@rcp.example"}, {"Last, First", "lf@rcp.example"}}
 
 var c10Singletons = []string{"content-type", "content-transfer-encoding", "mime-version", "subject", "date", "message-id", "from", "to", "cc", "reply-to", "content-disposition", "content-id"}
 
@@ -61,6 +69,21 @@ func c10Exec(r *vf.Run, k c10Case) []finding {
 			return nil
 		}
 	}
+	nTo, nCc := 0, 0
+	switch k.Rcpt {
+	case 1:
+		nTo, nCc = 3, 1
+	case 2:
+		nTo, nCc = 1, 3
+	case 3:
+		nTo, nCc = 3, 3
+	}
+	for i := 0; i < nTo; i++ {
+		_ = m.AddTo(c10Extra[i])
+	}
+	for i := 0; i < nCc; i++ {
+		_ = m.AddCc(c10Extra[3-i])
+	}
 	var r1 bytes.Buffer
 	if _, err := m.WriteTo(&r1); err != nil {
 		r.HarnessError("C10 render: %v", err)
@@ -76,7 +99,9 @@ func c10Exec(r *vf.Run, k c10Case) []finding {
 	}
 	var parsed *mail.Msg
 	var perr error
-	pan, pw := vf.Guard(func() { parsed, perr = mail.EMLToMsgFromReader(bytes.NewReader(r1.Bytes())) })
+	pan, pw := vf.Guard(func() {
+		mapseam.With(k.KS, func() { parsed, perr = mail.EMLToMsgFromReader(bytes.NewReader(r1.Bytes())) })
+	})
 	if pan {
 		return []finding{{"panic/" + vf.PanicSite(pw), firstLine(pw)}}
 	}
@@ -105,6 +130,26 @@ func c10Exec(r *vf.Run, k c10Case) []finding {
 	if k.ToName != "" {
 		wantTo = append(wantTo, "named@rcp.example")
 		wantToNames = append(wantToNames, k.ToName)
+	}
+	for i := 0; i < nTo; i++ {
+		wantTo = append(wantTo, c10ExtraNA[i][1])
+		wantToNames = append(wantToNames, c10ExtraNA[i][0])
+	}
+	if k.Rcpt > 0 {
+		var wantCc [][2]string
+		for i := 0; i < nCc; i++ {
+			wantCc = append(wantCc, c10ExtraNA[3-i])
+		}
+		cc := parsed.GetCc()
+		ok := len(cc) == len(wantCc)
+		for i := 0; ok && i < len(cc); i++ {
+			ok = cc[i].Address == wantCc[i][1] && cc[i].Name == wantCc[i][0]
+		}
+		if !ok {
+			add(fmt.Sprintf("parsed/cc/lists=%d", k.Rcpt), "parsed Cc %v, want %v", cc, wantCc)
+		} else {
+			r.Outcome(fmt.Sprintf("reached/recipient-lists=%d", k.Rcpt))
+		}
 	}
 	if t := parsed.GetTo(); len(t) != len(wantTo) {
 		add("parsed/to-count", "parsed To has %d addresses, want %d", len(t), len(wantTo))
@@ -409,6 +454,17 @@ func c10Specs(thorough bool) []c10Case {
 			}
 		}
 	}
+	// recipient lists of different lengths in To and Cc, parsed under every map-iteration start
+	for rc := 1; rc <= 3; rc++ {
+		for ks := 0; ks < 8; ks++ {
+			for _, menc := range encs[:2] {
+				s := mb.Msg{Enc: menc, Parts: []mb.Part{{Type: "text/plain", Content: texts[0]}, {Type: "text/html", Content: htmls[0]}}, Attach: []mb.File{{Name: "a.txt", Content: bins[0]}}}
+				sub := subjects[0]
+				s.Subject = &sub
+				cs = append(cs, c10Case{Spec: s, Rcpt: rc, KS: ks, ToName: dnames[rc]})
+			}
+		}
+	}
 	// every subject × display name combination on the alternative+attachment shape
 	for si := range subjects {
 		for di := range dnames {
@@ -427,10 +483,11 @@ func init() {
 	vf.Register(&vf.Check{
 		ID: "C10", Title: "render → parse → render preserves the message",
 		Run: func(r *vf.Run) {
-			r.SetRule("builder programs inside the parser's feature set: body text/plain with optional text/html alternative × 0..2 attachments × 0..2 embeds × message encoding {QP, base64, 8bit, 7bit} × per-part encodings × 6 text contents ('=', dots, UTF-8, long lines, LF-only, no final newline) plus every body part empty / one byte / a bare line break in every structure × 4 file contents × 22 file names (inner / leading / trailing blanks and Unicode spaces, non-ASCII, ';', '=') × every combination of Content-ID / description / media-type option on attachments and embeds × 5 subjects × 5 display names (RFC 2047, comma, 80 chars); each is rendered, the rendering is checked with the independent reader (precondition), parsed with EMLToMsgFromReader, compared with the model through the Msg getters, rendered again and compared again through the independent reader; distinct by program")
+			r.SetRule("builder programs inside the parser's feature set: body text/plain with optional text/html alternative × 0..2 attachments × 0..2 embeds × message encoding {QP, base64, 8bit, 7bit} × per-part encodings × 6 text contents ('=', dots, UTF-8, long lines, LF-only, no final newline) plus every body part empty / one byte / a bare line break in every structure × 4 file contents × 22 file names (inner / leading / trailing blanks and Unicode spaces, non-ASCII, ';', '=') × every combination of Content-ID / description / media-type option on attachments and embeds × 5 subjects × 5 display names (RFC 2047, comma, 80 chars) × To and Cc lists of different lengths parsed under every map-iteration start; each is rendered, the rendering is checked with the independent reader (precondition), parsed with EMLToMsgFromReader, compared with the model through the Msg getters, rendered again and compared again through the independent reader; distinct by program")
 			r.Assume("messages whose first rendering is already wrong are C01's business and skipped here", "the parser may choose other transfer encodings on re-rendering; contents are compared decoded (QP text modulo LF->CRLF)")
 			cases := c10Specs(r.Thorough)
 			r.Extra("programs", len(cases))
+			defer r.Reached("reached/recipient-lists=1", "reached/recipient-lists=2", "reached/recipient-lists=3")
 			r.Parallel(len(cases), "C10 programs", func(i int) {
 				k := cases[i]
 				fs := c10Exec(r, k)
